@@ -71,6 +71,7 @@ var faultKinds = map[string]vnet.FaultKind{"fin": vnet.FIN, "rst": vnet.RST, "bh
 func init() {
 	Register(&Scenario{
 		Name:     "fault",
+		DescToo:  true,
 		Property: "C03,C04",
 		Cfg:      vsched.Config{Horizon: 20 * time.Second},
 		Params:   faultParams,
